@@ -15,6 +15,10 @@ Theorem C21_time_sub_saturates : forall t u, wf_time t -> wf_time u ->
   go_sub t u = sat64 (ns t - ns u).
 Proof. exact go_sub_sat. Qed.
 
+(* ... and so is the monotonic-clock path (subMono on the two readings) *)
+Theorem C21_sub_mono_saturates : forall t u, is_dur t -> is_dur u -> sub_mono t u = sat64 (t - u).
+Proof. exact sub_mono_sat. Qed.
+
 (* the repair: subDuration is the saturated difference of two durations *)
 Theorem C21_sub_duration_saturates : forall a b, is_dur a -> is_dur b ->
   sub_duration a b = sat64 (a - b).
@@ -84,6 +88,7 @@ Example C21_ex_parallel : detect_parallel ex_status (10 * giga) = true /\ detect
 Proof. split; vm_compute; reflexivity. Qed.
 
 Print Assumptions C21_time_sub_saturates.
+Print Assumptions C21_sub_mono_saturates.
 Print Assumptions C21_sub_duration_saturates.
 Print Assumptions C21_emit_iff.
 Print Assumptions C21_answer_exact.
